@@ -1,7 +1,10 @@
 (* C17 — Every network operation is bounded by the configured timeout (partial: the theorem is about deadline
    arming; wall-clock behaviour is the Go runtime's and is measured by the harness).
    A read that finds no reply while the server holds the connection open blocks for ever (outcome Hang) unless a
-   deadline is set on the connection, in which case it returns a timeout error.  The server may stall at any
+   deadline is set on the connection, in which case it returns a timeout error.  Every public call of client.go /
+   quicksend.go that does network I/O is one of the programs below: DialWithContext / DialToSMTPClientWithContext (dial,
+   incl. refused dial attempts and the second attempt on the fallback port), DialAndSend(WithContext), QuickSend, Send /
+   SendWithSMTPClient, Reset / ResetWithSMTPClient, Close / CloseWithSMTPClient.  The server may stall at any
    position (script decision DStall, muted replies, a stalled TLS handshake), for any script. *)
 From Coq Require Import String.
 From Verif Require Import Dial.
@@ -14,6 +17,13 @@ Theorem C17_source_arms_deadline : src_fx_arm = true.
 Proof. exact (eq_refl true). Qed.
 Print Assumptions C17_source_arms_deadline.
 
+(* T1: these are the only deadline calls of client.go and smtp/smtp.go, each with "now + configured timeout"
+   (Gen.deadline_call_sites, Gen.deadline_args_are_timeout): removing, moving, duplicating with another value or
+   clearing a deadline breaks this obligation or the one above *)
+Theorem C17_source_deadline_sites : src_deadline_sites_ok = true.
+Proof. exact (eq_refl true). Qed.
+Print Assumptions C17_source_deadline_sites.
+
 Theorem C17_no_hang_dial : forall fuel cfg (s : srv), fx_arm cfg = true ->
   outcome_of (run (dial fuel cfg) (world0 s)) <> Hang.
 Proof. exact C17_dial_no_hang_l. Qed.
@@ -23,6 +33,12 @@ Theorem C17_no_hang_dial_and_send : forall fuel cfg msgs (s : srv), fx_arm cfg =
   outcome_of (run (dial_and_send fuel cfg msgs) (world0 s)) <> Hang.
 Proof. exact C17_dial_and_send_no_hang_l. Qed.
 Print Assumptions C17_no_hang_dial_and_send.
+
+(* QuickSend = NewClient(WithTLSPolicy(TLSOpportunistic)) + DialAndSend of one message *)
+Theorem C17_no_hang_quick_send : forall fuel with_auth host fxc fxq fxs nrcpt (s : srv),
+  outcome_of (run (quick_send fuel with_auth host fxc fxq true fxs nrcpt) (world0 s)) <> Hang.
+Proof. exact C17_quick_send_no_hang_l. Qed.
+Print Assumptions C17_no_hang_quick_send.
 
 (* DialWithContext, Send, Reset, Close as separate calls on one client *)
 Theorem C17_no_hang_session : forall fuel cfg msgs (s : srv), fx_arm cfg = true ->
@@ -52,7 +68,7 @@ Print Assumptions C17_no_hang_close.
 
 (* before the repair (documentation): a server that never sends the greeting, or stalls at the first NOOP of Send *)
 Definition cfg17 (fx : bool) : config :=
-  mkCfg NoTLS false Gen.smtp_auth_noauth None (bs "mail.verif.test") false true true fx true.
+  mkCfg NoTLS false Gen.smtp_auth_noauth None (bs "mail.verif.test") false true true fx true false.
 
 Example C17_before_fix_refuted_greeting :
   outcome_of (run (dial 8 (cfg17 false)) (world0 (srv0 [DStall] None [] [] HsOk))) = Hang.
